@@ -24,8 +24,8 @@ OPTIONS = [None, 'NoInject', 'With', 'NoWith', 'Ground']
 
 def plan(tier, seed):
   return {'nshards': 16, 'timeout_s': 5400 if tier == 'thorough' else 1200,
-          'params': {'n_programs': 60 if tier == 'thorough' else 8, 'max_k': 3 if tier == 'thorough' else 2,
-                     'max_assignments': 125 if tier == 'thorough' else 8}}
+          'params': {'n_programs': 16 if tier == 'thorough' else 8, 'max_k': 3 if tier == 'thorough' else 2,
+                     'max_assignments': 40 if tier == 'thorough' else 8}}
 
 
 def features_for(i):
